@@ -54,6 +54,11 @@ type vIsoState struct {
 	rows   bool
 	parses int
 	execs  int
+	// what the handler saw when it touched its result writer again AFTER
+	// Complete (bookkeeping): the row count, and whether a further Row was refused
+	writtenAfter  uint64
+	lateRowTaken  bool
+	touchedAfter  bool
 }
 
 func VerifH15() {
@@ -88,7 +93,13 @@ func VerifH15() {
 				return err
 			}
 		}
-		return dw.Complete("T")
+		err := dw.Complete("T")
+		// the writer a statement was given stays that statement's: the handler
+		// looks at it again after completion (bookkeeping, a late row by mistake)
+		me.touchedAfter = true
+		me.writtenAfter = dw.Written()
+		me.lateRowTaken = dw.Row(make([]any, me.cols)) == nil
+		return err
 	}
 	var kept *PreparedStatement
 	if sharedStmt {
@@ -269,6 +280,15 @@ func VerifH15() {
 			return 1
 		}
 		return 0
+	}
+	for i := 0; i < 2; i++ {
+		if st[i].touchedAfter {
+			want := uint64(0)
+			if st[i].rows {
+				want = 1
+			}
+			vAssert("result-writer-after-completion-still-this-statement's", st[i].writtenAfter == want && !st[i].lateRowTaken)
+		}
 	}
 	vAssert("conn1-callbacks-as-if-alone", st[0].parses == n(ext1)+n(sim1) && st[0].execs == n(ext1)+n(sim1))
 	vAssert("conn2-callbacks-as-if-alone", st[1].parses == n(ext2)+n(sim2) && st[1].execs == n(ext2)+n(sim2))
